@@ -1392,7 +1392,11 @@ impl<'a> CompilerState<'a> {
                                         }
                                         let vx = self.parse_calc(px.into_inner())?;
                                         def = VariableDefinition::Value(VariableValue::Int(vx));
-                                        if var_type == VariableType::CharPtr && vx > 0xff {
+                                        // (a memory class given in the declaration is kept)
+                                        if var_type == VariableType::CharPtr
+                                            && vx > 0xff
+                                            && memory == VariableMemory::Zeropage
+                                        {
                                             memory = VariableMemory::Ramchip;
                                         }
                                     }
